@@ -835,6 +835,10 @@ class SyncObj(object):
             ver = pickle.loads(command[1:])
             if self.__selfCodeVersion < ver:
                 raise SyncObjExceptionWrongVer(ver)
+            if ver < self.__enabledCodeVersion:
+                # The request was valid when it was made, but a higher version has been enabled
+                # in the meantime: the enabled version never goes back.
+                return
             oldVer = self.__enabledCodeVersion
             self.__enabledCodeVersion = ver
             callback = self.__conf.onCodeVersionChanged
